@@ -984,3 +984,104 @@ def assigned_under(fn, var, akey, aval, use):
             if _lit_feasible_under(fn, lit, akey, aval, blk):
                 st.append((s, last))
     return list(out.values())
+
+
+def eval_tree(t, val):
+    """Three-valued evaluation of an expression tree: val(subtree) -> int or
+    None supplies the assumed values of calls / variables / fields; constants,
+    comparisons, !, && and || are interpreted.  Returns an int or None."""
+    t = strip_casts(t)
+    if not isinstance(t, dict):
+        return None
+    c = const_val(t)
+    if c is not None:
+        return c
+    v = val(t)
+    if v is not None:
+        return v
+    k = t.get("k")
+    if k == "call" and t.get("f") == "__builtin_expect":
+        return eval_tree(t["a"][0], val)
+    if k == "un":
+        x = eval_tree(t.get("x"), val)
+        if t.get("op") == "!":
+            return None if x is None else int(not x)
+        if t.get("op") == "-":
+            return None if x is None else -x
+        return None
+    if k == "bin":
+        op = t.get("op")
+        if op in ("&&", "||"):
+            l, r = eval_tree(t["l"], val), eval_tree(t["r"], val)
+            if op == "&&":
+                if l == 0 or r == 0:
+                    return 0
+                return 1 if (l is not None and r is not None) else None
+            if (l is not None and l != 0) or (r is not None and r != 0):
+                return 1
+            return 0 if (l == 0 and r == 0) else None
+        l, r = eval_tree(t["l"], val), eval_tree(t["r"], val)
+        if l is None or r is None:
+            return None
+        try:
+            return {"==": int(l == r), "!=": int(l != r), "<": int(l < r), "<=": int(l <= r), ">": int(l > r),
+                    ">=": int(l >= r), "+": l + r, "-": l - r}.get(op)
+        except Exception:
+            return None
+    return None
+
+
+def sequences_under(fn, item, val, start=None, stop=None, limit=4000):
+    """All sequences of item(e) tokens along CFG paths that are feasible under
+    the assumption valuation `val` (see eval_tree), from the function entry
+    (or just after the first event matching start) to the exit (or an event
+    matching stop).  A path that comes back to a block it already visited ends
+    with the token "<loop>".  Branches whose condition does not evaluate are
+    followed both ways."""
+    out = set()
+    if start is None:
+        init = [(fn.entry, 0)]
+    else:
+        init = [(b, i + 1) for (b, i, e) in fn.events() if start(e)][:1]
+    st = [(b, i, (), frozenset()) for b, i in init]
+    n = 0
+    while st:
+        b, i, seq, seen = st.pop()
+        n += 1
+        if n > limit:
+            raise Unsupported("too many paths in %s" % fn.name)
+        blk = fn.blocks[b]
+        ended = False
+        seq = list(seq)
+        for e in blk.ev[i:]:
+            if stop is not None and stop(e):
+                ended = True
+                break
+            tkn = item(e)
+            if tkn is not None:
+                seq.append(tkn)
+            if e["e"] == "ret":
+                ended = True
+                break
+        if ended or b == fn.exit or blk.noret:
+            out.add(tuple(seq))
+            continue
+        nxt = []
+        for s, lit in fn.edge_literals(b):
+            if lit is not None and lit[0] not in ("case", "default"):
+                tv = eval_tree(lit[0], val)
+                if tv is not None and bool(tv) != bool(lit[1]):
+                    continue
+            elif lit is not None and lit[0] == "case":
+                tv = eval_tree(lit[1], val)
+                if tv is not None and const_val(lit[2]) != tv:
+                    continue
+            nxt.append(s)
+        if not nxt:
+            out.add(tuple(seq))
+        for s in nxt:
+            if s in seen or s == b:
+                out.add(tuple(seq) + ("<loop>",))
+            else:
+                st.append((s, 0, tuple(seq), seen | {b}))
+    return out
